@@ -469,7 +469,8 @@ def gen_cases(tier, seed):
 def run_entry_points(b, tier, seed, props):
     """String / file / list-of-files assertions on generated texts (readers, newlines, unicode)."""
     from tdda.referencetest.referencetest import ReferenceTest
-    texts = ['', 'a', 'a\n', 'a\nb', 'a\nb\n', 'a\r\nb\r\n', 'é£\n', ' a \n\tb\n', 'x\n\n', 'id=7 ok\nskip me\n']
+    texts = ['', 'a', 'a\n', 'a\nb', 'a\nb\n', 'a\r\nb\r\n', 'é£\n', ' a \n\tb\n', 'x\n\n', 'id=7 ok\nskip me\n',
+             'id=7 ok\n', 'skip this\nid=8 ok\n']      # the same text up to a removable line / an excusable number
     saved = dict(ReferenceTest.regenerate)
     top = tempfile.mkdtemp(prefix='verif-c04e-')
     cwd = os.getcwd()
